@@ -105,6 +105,73 @@ theorem reachable_invariants (ops : List Op) :
     C03.Inv3 (runOps State.init ops) ∧ C03.Inv5 (runOps State.init ops) :=
   ⟨C03.inv3_runOps ops State.init C03.inv3_init, C03.inv5_runOps ops State.init C03.inv5_init⟩
 
+/-! ### the process-wide default storage -/
+
+/-- **accepted ⇒ the default storage is the new configuration's** (full strength) -/
+theorem accepted_sets_default_storage (s : State) (c : Cfg) (e : Env) (h : (changeTo c e s).2 = .ok) :
+    (changeTo c e s).1.dstor = c.stor.key ∧
+    ∃ ctx, (changeTo c e s).1.cur = some ctx ∧ ctx.stor = c.stor.key := by
+  rcases changeTo_cases c e s with ⟨_, h'⟩ | h' | ⟨s1, hq, h'⟩ | ⟨s1, r, hok, hq, h'⟩
+  · rw [h'] at h; cases h
+  · rw [h'] at h; cases h
+  · rw [h']
+    obtain ⟨s', ctx, hrun, rfl⟩ := decodeAndRun_ok hq
+    obtain ⟨hk1, hk2⟩ := (run_dstor s.next c e { s with raw := some c }).1 s' ctx hrun
+    have hu := unsyncedStop_frame4 ({ s with raw := some c } : State).cur { s' with cur := some ctx }
+    refine ⟨?_, ctx, hu.cur, hk2⟩
+    show (unsyncedStop _ _).dstor = _
+    rw [unsyncedStop_dstor]; exact hk1
+  · rw [h'] at h; exact absurd h hok
+
+/-- an attempt that is answered before anything runs (unknown top-level field, `"@id"` of the wrong
+    type) does not touch the default storage -/
+theorem default_storage_untouched_before_run (s : State) (c : Cfg) (e : Env) (h : c.top = 1 ∨ c.top = 2) :
+    (changeTo c e s).1.dstor = s.dstor := by
+  unfold changeTo
+  split
+  · rfl
+  · split
+    · rfl
+    · rename_i h2
+      have h1 : c.top = 1 := by rcases h with h | h; exact h; exact absurd h h2
+      unfold decodeAndRun
+      simp [h1]
+
+/-- **rejected ⇒ default storage untouched, PARTIAL** (the full statement is refuted in
+    Witness.lean: `default_storage_full_fails`, finding F21). For an attempt that is rejected after
+    run() was entered, over a configuration that is current: if it is rejected while
+    provisionContext is still at work (logging, storage module, any app or guest module) the
+    default storage is put back to the current configuration's; if it is rejected after
+    provisionContext succeeded (admin routers, Start, post-start) it is LEFT at the rejected
+    configuration's storage. (Excluded altogether: no configuration is current — then nothing is
+    restored, witness (a).) -/
+theorem default_storage_partial (s : State) (c : Cfg) (e : Env) (cur : Ctx) (hc : s.cur = some cur)
+    (hr : (changeTo c e s).2.accepted = false) (ht1 : c.top ≠ 1) (ht2 : c.top ≠ 2) :
+    ((∃ r0, (provisionContext s.next c e.pp { s with raw := some c }).2.2 = some r0) →
+      (changeTo c e s).1.dstor = cur.stor) ∧
+    ((provisionContext s.next c e.pp { s with raw := some c }).2.2 = none →
+      (changeTo c e s).1.dstor = c.stor.key) := by
+  have hd := run_dstor s.next c e { s with raw := some c }
+  unfold changeTo at hr ⊢
+  split at hr
+  · simp [Res.accepted] at hr
+  · rename_i hsame
+    simp only [hsame, ht2, if_false] at hr ⊢
+    unfold decodeAndRun at hr ⊢
+    simp only [ht1, if_false] at hr ⊢
+    generalize hrun : run s.next c e { s with raw := some c } = q at hr hd ⊢
+    obtain ⟨s', o, res⟩ := q
+    simp only at hd
+    by_cases hres : res = .ok
+    · subst hres
+      obtain ⟨ctx, rfl, _⟩ := run_ok hrun
+      simp [Res.accepted] at hr
+    · have goal : ((∃ r0, (provisionContext s.next c e.pp { s with raw := some c }).2.2 = some r0) →
+            s'.dstor = cur.stor) ∧
+          ((provisionContext s.next c e.pp { s with raw := some c }).2.2 = none → s'.dstor = c.stor.key) :=
+        ⟨fun ⟨r0, h0⟩ => hd.2.2 r0 cur h0 hc, fun hn => hd.2.1 hn hres⟩
+      cases o <;> cases res <;> first | exact absurd rfl hres | exact goal
+
 /-! ### every history -/
 
 /-- **history_atomic** (full strength). For EVERY history of load / partial-change / malformed /
@@ -141,10 +208,10 @@ theorem stop_leaves_nothing (s : State) (r : Option Cfg) (h : Inv s r) :
 /-! ### non-vacuity: concrete instances (kernel-evaluated) -/
 
 /-- a running config: probe app 0 on address 0, HTTP app on address 1 -/
-def exOld : Cfg := ⟨0, [], [⟨0, 1, 0, [0], [⟨0, 0⟩]⟩, ⟨3, 2, 0, [1], []⟩]⟩
+def exOld : Cfg := ⟨0, [], [⟨0, 1, 0, [0], [⟨0, 0⟩]⟩, ⟨3, 2, 0, [1], []⟩], ⟨0, 0⟩⟩
 /-- a new config whose second started app (probe app 1) fails in Start after the first (probe app
     0, address 2) has started -/
-def exNew : Cfg := ⟨0, [], [⟨0, 5, 0, [2], []⟩, ⟨1, 6, 5, [3], []⟩]⟩
+def exNew : Cfg := ⟨0, [], [⟨0, 5, 0, [2], []⟩, ⟨1, 6, 5, [3], []⟩], ⟨0, 0⟩⟩
 def exEnv : Env := ⟨true, false, 0, [], [0, 1], [0, 1]⟩
 def exState : State := (step State.init (.load exOld ⟨true, false, 0, [], [0, 3], [0, 3]⟩)).1
 
@@ -156,24 +223,36 @@ example : exState.raw = exState.rawJSON ∧ (∀ k ∈ exState.socks, k.cid < ex
 example : ((changeTo exNew exEnv exState).1.aevents.filter
     (fun ev => ev = .started 1 0 ∨ ev = .stop 1 0 ∨ ev = .startFail 1 1)).length = 3 := by decide
 -- an accepted attempt over a running config
-example : (changeTo ⟨0, [], [⟨0, 5, 0, [2], []⟩]⟩ exEnv exState).2 = .ok ∧
-    answers (changeTo ⟨0, [], [⟨0, 5, 0, [2], []⟩]⟩ exEnv exState).1 = [(2, 5)] := by decide
+example : (changeTo ⟨0, [], [⟨0, 5, 0, [2], []⟩], ⟨0, 0⟩⟩ exEnv exState).2 = .ok ∧
+    answers (changeTo ⟨0, [], [⟨0, 5, 0, [2], []⟩], ⟨0, 0⟩⟩ exEnv exState).1 = [(2, 5)] := by decide
 -- the admin routers cannot be provisioned: rejected before anything starts, nothing moves
-example : (changeTo ⟨0, [], [⟨0, 5, 0, [2], []⟩]⟩ ⟨true, false, 2, [], [0], [0]⟩ exState).2 = .errAdmin ∧
-    answers (changeTo ⟨0, [], [⟨0, 5, 0, [2], []⟩]⟩ ⟨true, false, 2, [], [0], [0]⟩ exState).1 = [(0, 1), (1, 2)] := by decide
+example : (changeTo ⟨0, [], [⟨0, 5, 0, [2], []⟩], ⟨0, 0⟩⟩ ⟨true, false, 2, [], [0], [0]⟩ exState).2 = .errAdmin ∧
+    answers (changeTo ⟨0, [], [⟨0, 5, 0, [2], []⟩], ⟨0, 0⟩⟩ ⟨true, false, 2, [], [0], [0]⟩ exState).1 = [(0, 1), (1, 2)] := by decide
 -- rejected_leaves_no_module: a config whose SECOND app fails to validate after the first app and
 -- its guests were provisioned — the three instances are provisioned and cleaned, the pool is back
-example : (changeTo ⟨0, [], [⟨0, 5, 0, [2], [⟨0, 1⟩, ⟨0, 2⟩]⟩, ⟨1, 6, 4, [], []⟩]⟩ exEnv exState).2 = .errValidate ∧
-    ((changeTo ⟨0, [], [⟨0, 5, 0, [2], [⟨0, 1⟩, ⟨0, 2⟩]⟩, ⟨1, 6, 4, [], []⟩]⟩ exEnv exState).1.events.filter
+example : (changeTo ⟨0, [], [⟨0, 5, 0, [2], [⟨0, 1⟩, ⟨0, 2⟩]⟩, ⟨1, 6, 4, [], []⟩], ⟨0, 0⟩⟩ exEnv exState).2 = .errValidate ∧
+    ((changeTo ⟨0, [], [⟨0, 5, 0, [2], [⟨0, 1⟩, ⟨0, 2⟩]⟩, ⟨1, 6, 4, [], []⟩], ⟨0, 0⟩⟩ exEnv exState).1.events.filter
       (fun ev => match ev with | .clean i => i.cid = 1 | _ => false)).length = 4 ∧
-    (changeTo ⟨0, [], [⟨0, 5, 0, [2], [⟨0, 1⟩, ⟨0, 2⟩]⟩, ⟨1, 6, 4, [], []⟩]⟩ exEnv exState).1.mpool 1 = 0 ∧
+    (changeTo ⟨0, [], [⟨0, 5, 0, [2], [⟨0, 1⟩, ⟨0, 2⟩]⟩, ⟨1, 6, 4, [], []⟩], ⟨0, 0⟩⟩ exEnv exState).1.mpool 1 = 0 ∧
     exState.mpool 0 = 1 := by decide
+-- default storage: accepted (storage module 2) sets it; rejected while provisioning an app puts it
+-- back to the running config's (0); rejected at Start leaves the rejected config's (1)
+example : (changeTo ⟨0, [], [⟨0, 5, 0, [2], []⟩], ⟨0, 2⟩⟩ exEnv exState).2 = .ok ∧
+    (changeTo ⟨0, [], [⟨0, 5, 0, [2], []⟩], ⟨0, 2⟩⟩ exEnv exState).1.dstor = 2 := by decide
+example : exState.cur.map (·.stor) = some 0 ∧
+    (changeTo ⟨0, [], [⟨0, 5, 4, [2], []⟩], ⟨0, 1⟩⟩ exEnv exState).2 = .errValidate ∧
+    (provisionContext exState.next ⟨0, [], [⟨0, 5, 4, [2], []⟩], ⟨0, 1⟩⟩ exEnv.pp { exState with raw := some ⟨0, [], [⟨0, 5, 4, [2], []⟩], ⟨0, 1⟩⟩ }).2.2 = some .errValidate ∧
+    (changeTo ⟨0, [], [⟨0, 5, 4, [2], []⟩], ⟨0, 1⟩⟩ exEnv exState).1.dstor = 0 := by decide
+example : (changeTo ⟨0, [], [⟨0, 5, 5, [2], []⟩], ⟨0, 1⟩⟩ exEnv exState).2 = .errStart ∧
+    (provisionContext exState.next ⟨0, [], [⟨0, 5, 5, [2], []⟩], ⟨0, 1⟩⟩ exEnv.pp { exState with raw := some ⟨0, [], [⟨0, 5, 5, [2], []⟩], ⟨0, 1⟩⟩ }).2.2 = none ∧
+    (changeTo ⟨0, [], [⟨0, 5, 5, [2], []⟩], ⟨0, 1⟩⟩ exEnv exState).1.dstor = 1 := by decide
+example : (changeTo ⟨2, [], [], ⟨0, 1⟩⟩ exEnv exState).2 = .errIndex := by decide
 -- "unchanged"
 example : (changeTo exOld ⟨false, false, 0, [], [], []⟩ exState).2 = .same := by decide
 -- the HTTP app's Start fails at its SECOND listener (address 1 held by somebody else, address 2
 -- bound first): rejected, and nothing of it is left
-example : (changeTo ⟨0, [], [⟨3, 9, 0, [2, 4], []⟩]⟩ ⟨true, false, 0, [4], [3], [3]⟩ exState).2 = .errStart ∧
-    answers (changeTo ⟨0, [], [⟨3, 9, 0, [2, 4], []⟩]⟩ ⟨true, false, 0, [4], [3], [3]⟩ exState).1 = answers exState := by decide
+example : (changeTo ⟨0, [], [⟨3, 9, 0, [2, 4], []⟩], ⟨0, 0⟩⟩ ⟨true, false, 0, [4], [3], [3]⟩ exState).2 = .errStart ∧
+    answers (changeTo ⟨0, [], [⟨3, 9, 0, [2, 4], []⟩], ⟨0, 0⟩⟩ ⟨true, false, 0, [4], [3], [3]⟩ exState).1 = answers exState := by decide
 example : Inv exState (some exOld) := by
   have := inv_step inv_init (.load exOld ⟨true, false, 0, [], [0, 3], [0, 3]⟩)
   exact this
